@@ -19,6 +19,10 @@ ASSUMPTIONS = ['datetime subtraction and comparison behave as documented',
 MINIMUM = {'R10.1': 1, 'R10.2': 4, 'R10.3': 2, 'R10.4': 2}
 
 
+# rules of sibling properties that are necessary conditions of this one too
+# (evaluated by the sibling module on the same graphs, reported under this property)
+ALSO = {'C03': {'R03.3': 'the first DeletionDate line decides, also when it is invalid'}}
+
 def is_timedelta(t, days_ok):
     t = strip(t)
     if isinstance(t, Call) and t.fn in ('datetime.timedelta',) and not t.args:
